@@ -330,6 +330,22 @@ def rot_hash_from_dc(dc, ele):
     return hashlib.new(h, b"".join(dc["table"])).digest()
 
 
+def slot_entries(dc, ele):
+    """What the hashed structure of a credential holds per slot, read from the BYTES (short fingerprints, for equality patterns): the four
+    32-byte entries of an RSA table, the key hashes of an ECC table (one key: the hash of the embedded key), the records of an SRK table."""
+    if ele:
+        raw, out, o = dc["srk"]["raw"], [], 4
+        for rc in dc["srk"]["records"]:
+            out.append(hashlib.sha256(raw[o:o + rc["len"]]).hexdigest()[:16])
+            o += rc["len"]
+        return out
+    if dc["kind"] == "rsa":
+        return [t.hex()[:16] for t in dc["table"]]
+    if dc["nkeys"] == 1:
+        return [hashlib.new(ECC_HASH[dc["size"]], dc["rot_blob"]).hexdigest()[:16]]
+    return [t.hex()[:16] for t in dc["table"]]
+
+
 # ------------------------------------------------------------------ challenge and response
 def build_dac(ver, socc, uuid, rkth, challenge, revocation=0, pinned=0, default=0, vu=0):
     """DAC bytes (anchors sample_dac*.bin): version, socc, uuid, revocation, RoT hash, pinned, default, vu, challenge."""
